@@ -33,20 +33,22 @@ META = {
         "upper bound of 'executed lines' (exact except RESUME/END_FOR/generator-prologue lines, which pynguin documents to skip)",
         "a window is compared only if the instrumented run had the same outcome kind/exception type as the original run and the "
         "tracer neither raised into the subject nor was left disabled (C01/C04/C05 territory; counted as excluded)",
-        "str.startswith/endswith with tuple arguments are not generated (known C01 defect of the dynamic-seeding adapter)",
+        "the dynamic-seeding adapter is active as in production (install_import_hook adds it); a window in which it changed "
+        "the behaviour of the subject would be excluded as 'behaviour-diverged'",
         "registration completeness (every executable line is a goal) is C08's subject and is not demanded here (only: a module that "
         "executes lines has at least one line goal)",
-        "metric subsets {LINE} and {LINE, BRANCH}; the CHECKED subsets of the design are switched off (PLAN 'checked'): the CHECKED "
-        "adapter changes program behaviour (slices), fails on 'with' and crashes the interpreter on inlined comprehensions (C01)",
+        "metric subsets: quick {LINE}, {LINE, BRANCH}; thorough additionally {LINE, CHECKED}, {LINE, BRANCH, CHECKED} on programs "
+        "without comprehensions (the CHECKED adapter crashes the interpreter on every inlined comprehension -- C01 finding, "
+        "excluded by construction)",
     ],
     "level_text": "Generated programs x inputs against an independent interpreter-level oracle; exploration, not proof.",
     "level_note": "Trusted: CPython's sys.monitoring, the compile()d line tables, vf.gen.pygen's renderer.",
 }
 PLAN = {
     "quick": {"shards": 16, "examples": 320, "max_stmts": 14, "max_funcs": 2},
-    "thorough": {"shards": 16, "examples": 8000, "timeout": 3000, "max_stmts": 25, "max_funcs": 3, "checked": False},
+    "thorough": {"shards": 16, "examples": 8000, "timeout": 3000, "max_stmts": 25, "max_funcs": 3, "checked": True},
 }
-FEATURES = set(pygen.FEATURES) - {"strtuple"}
+FEATURES = set(pygen.FEATURES)
 
 
 def strategy(ctx) -> st.SearchStrategy:
@@ -56,13 +58,12 @@ def strategy(ctx) -> st.SearchStrategy:
     subsets = [["LINE"], ["BRANCH", "LINE"]]
     strat = st.tuples(base, st.sampled_from(subsets))
     if p.get("checked"):
-        # Known C01 findings of the CHECKED adapter, excluded by construction: it fails on every ``with`` ("block 0 is not
-        # part of this bytecode") and crashes the interpreter on every inlined comprehension (it emits a LOAD_FAST of the
-        # still unbound comprehension variable in front of LOAD_FAST_AND_CLEAR and passes the NULL to the tracer).
-        # It also changes what ``seq[a:b]`` evaluates to (BINARY_SLICE operands get shuffled: 'abc'[:0] == 'abc'), so
-        # slices/subscripts are left out as well.  With these three defects the CHECKED subsets are off by default
-        # (PLAN[...]["checked"]); switch them on once the adapter is repaired.
-        plain = pygen.case_strategy(FEATURES - {"with", "comp", "subscript"}, max_funcs=p.get("max_funcs", 2), max_stmts=p.get("max_stmts", 14),
+        # Known C01 finding of the CHECKED adapter, excluded by construction: it crashes the interpreter (SIGSEGV) on every
+        # inlined comprehension -- python3_12.CheckedCoverageInstrumentation.visit_local_access emits a LOAD_FAST of the still
+        # unbound comprehension variable in front of LOAD_FAST_AND_CLEAR and hands the NULL to the tracer
+        # (``def f(xs): return [c for c in xs]``).  The CHECKED subsets (thorough tier) therefore run on programs without
+        # comprehensions; the adapter's former failures on ``with`` and on slices have been repaired in /repo meanwhile.
+        plain = pygen.case_strategy(FEATURES - {"comp"}, max_funcs=p.get("max_funcs", 2), max_stmts=p.get("max_stmts", 14),
                                     per_target=2, values="tame", mismatch=6)
         checked = st.tuples(plain, st.sampled_from([["CHECKED", "LINE"], ["BRANCH", "CHECKED", "LINE"]]))
         strat = checked if p.get("checked") == "only" else st.one_of(strat, strat, checked)
